@@ -2,6 +2,8 @@ package props
 
 import (
 	"fmt"
+	"math/big"
+	"strconv"
 
 	jpl "github.com/evanphx/json-patch"
 	"github.com/evanphx/json-patch/v5/verifharness/core"
@@ -232,6 +234,11 @@ func init() {
 				aT := fprof.Object(c.R, 1+c.R.Intn(4))
 				a := mustParse(aT)
 				b := editObject(c.R, fprof, a, c.R.Intn(4))
+				if !float64Exact(b) {
+					// two one-point edits of 9007199254740991 give ...993, which no float64 holds: outside the stated domain
+					c.Count("out_of_domain:number-not-a-float64")
+					return
+				}
 				judgeCreateObj(c, legacyCreate, aT, fprof.Respell(c.R, b, c.R.Intn(2) == 0))
 			}},
 			{Name: "compose-colliding-patches", Count: n(40000, 2400000), Run: func(c *core.Ctx, idx int) {
@@ -275,6 +282,29 @@ func init() {
 		},
 	})
 	_ = ref7396.Merge
+}
+
+// float64Exact: every number literal in v is the exact value of some float64 (the legacy package's stated domain).
+func float64Exact(v *jr.Value) bool {
+	if v.K == jr.Num {
+		want, ok := new(big.Rat).SetString(v.Lit)
+		f, err := strconv.ParseFloat(v.Lit, 64)
+		if !ok || err != nil {
+			return false
+		}
+		return new(big.Rat).SetFloat64(f).Cmp(want) == 0
+	}
+	for _, e := range v.A {
+		if !float64Exact(e) {
+			return false
+		}
+	}
+	for _, e := range v.Vals {
+		if !float64Exact(e) {
+			return false
+		}
+	}
+	return true
 }
 
 func containsText(s, sub string) bool {
